@@ -141,7 +141,14 @@ func VerifC06() {
 	if extra == "" && verifFlag("rootExists") {
 		// some root already exists (as a directory or as a file); only when the target exists
 		existing = int(verifChoose("which", 0, uint(len(roots)-1)))
-		vfsAdd([]string{rootNames[existing]}, int(verifChoose("existKind", 1, 2)))
+		// the root exists already: as a directory, as a regular file, or as a symbolic link to a directory
+		switch ek := int(verifChoose("existKind", 1, 3)); ek {
+		case 3:
+			vfsAdd([]string{rootNames[existing]}, 1)
+			vfsMakeLink([]string{rootNames[existing]})
+		default:
+			vfsAdd([]string{rootNames[existing]}, ek)
+		}
 	}
 	vfsSeal()
 	verifContext("C06.mkdir")
